@@ -221,6 +221,18 @@ func decimalStringToNum(v reflect.Value) (reflect.Value, bool) {
 	return v, false
 }
 
+// copyOfElement returns rv itself unless it is a view of a slice element or
+// struct field, which a later store into the container would change: then it
+// returns a copy, so that assigning it keeps the value that was read.
+func copyOfElement(rv reflect.Value) reflect.Value {
+	if !rv.CanAddr() || !rv.CanInterface() {
+		return rv
+	}
+	c := reflect.New(rv.Type()).Elem()
+	c.Set(rv)
+	return c
+}
+
 // isExactInt64 reports whether an integer can be the number a numeral read as
 // the float f denotes: f must be that very integer, not merely round to the
 // same float64 (a float number always can).
